@@ -15,6 +15,13 @@ import (
 	"sync"
 	"time"
 
+	"k8s.io/apimachinery/pkg/api/meta"
+	"k8s.io/apimachinery/pkg/runtime/schema"
+	"k8s.io/cli-runtime/pkg/resource"
+	restfake "k8s.io/client-go/rest/fake"
+	"k8s.io/client-go/restmapper"
+	cmdtesting "k8s.io/kubectl/pkg/cmd/testing"
+
 	"helm.sh/helm/v4/pkg/action"
 	chart "helm.sh/helm/v4/pkg/chart/v2"
 	chartutil "helm.sh/helm/v4/pkg/chart/v2/util"
@@ -24,6 +31,7 @@ import (
 	"helm.sh/helm/v4/pkg/storage/driver"
 
 	"verif/harness/internal/eng"
+	"verif/harness/internal/sim"
 )
 
 // c06Wide: what lies outside eng.Flags / eng.BuildChart.
@@ -109,6 +117,40 @@ func (d *c06Drv) Update(k string, r *rspb.Release) error {
 	return d.inner.Update(k, c06Clone(r))
 }
 func (d *c06Drv) Delete(k string) (*rspb.Release, error) { d.w(); return d.inner.Delete(k) }
+
+// ---- factory: the kubectl test factory of sim.Client(), whose REST mapper ALSO knows the kind
+// CustomResourceDefinition.  Without that, kube.Client.Build of a crds/ file fails with
+// "no matches for kind" before any request is sent, and a CRD installation attempted during a
+// dry run would be invisible to the request-counting oracle (seeded defect C06-1).  The simulated
+// API server has no store for CRDs (it answers 404), but every request that ARRIVES is logged
+// and counted.
+
+type c06Factory struct{ *cmdtesting.TestFactory }
+
+func (f *c06Factory) NewBuilder() *resource.Builder {
+	return resource.NewFakeBuilder(
+		func(schema.GroupVersion) (resource.RESTClient, error) { return f.UnstructuredClient, nil },
+		func() (meta.RESTMapper, error) {
+			base, err := f.TestFactory.ToRESTMapper()
+			if err != nil {
+				return nil, err
+			}
+			crd := meta.NewDefaultRESTMapper(nil)
+			crd.Add(schema.GroupVersionKind{Group: "apiextensions.k8s.io", Version: "v1", Kind: "CustomResourceDefinition"}, meta.RESTScopeRoot)
+			return meta.FirstHitRESTMapper{MultiRESTMapper: meta.MultiRESTMapper{base, crd}}, nil
+		},
+		func() (restmapper.CategoryExpander, error) { return resource.FakeCategoryExpander, nil },
+	)
+}
+
+func c06Client(s *sim.Server) *kube.Client {
+	tf := cmdtesting.NewTestFactory().WithNamespace("default")
+	tf.UnstructuredClient = &restfake.RESTClient{
+		NegotiatedSerializer: resource.UnstructuredPlusDefaultContentConfig().NegotiatedSerializer,
+		Client:               restfake.CreateHTTPClient(s.RoundTrip),
+	}
+	return &kube.Client{Factory: &c06Factory{tf}}
+}
 
 // ---- kube client: the real one; only reachability and waiting are stubbed ----
 
@@ -221,7 +263,7 @@ func c06Classify(err error) string {
 // c06RunWide executes one operation with the wide flag set / chart features.
 func c06RunWide(r *eng.Runner, op *eng.Op, w *c06Wide) (so eng.StepObs) {
 	d := &c06Drv{inner: r.Inner}
-	cfg := &action.Configuration{KubeClient: &c06Kube{r.Srv.Client()}, Releases: storage.Init(d),
+	cfg := &action.Configuration{KubeClient: &c06Kube{c06Client(r.Srv)}, Releases: storage.Init(d),
 		Capabilities: chartutil.DefaultCapabilities.Copy()}
 	req0, mreq0 := r.Srv.Requests(), r.Srv.MutatingRequests()
 	var err error
